@@ -549,6 +549,8 @@ func configureEngine() {
 		"k8s.io/client-go/util/retry": true,
 		// knownReasons: a map literal of constants
 		"k8s.io/apimachinery/pkg/api/errors": true,
+		// Canceled/DeadlineExceeded, closedchan (closed by its init)
+		"context": true,
 	}
 	m := "metacontroller/pkg/zzverif/models."
 	interp.Redirect = map[string]string{
